@@ -747,7 +747,7 @@ theorem tie_stmtsWriteHeaderRegLink : Generated.stmtsWriteHeaderRegLink = (["if 
   "return installed, nil"] : List String) := by rfl
 
 theorem tie_stmtsWriteOneFile : Generated.stmtsWriteOneFile = (["if _, err := a.fs.Stat(header.Name); err == nil { if !allowOverwrite { w := sha1.New() f, err := a.fs.Open(header.Name) if err != nil { return fmt.Errorf(\"unable to open existing file to calculate sum %s: %w\", header.Name, err) } defer f.Close() if _, err := io.Copy(w, f); err != nil { return fmt.Errorf(\"unable to calculate sum of existing file %s: %w\", header.Name, err) } return FileExistsError{Path: header.Name, Sha1: w.Sum(nil)} } if err := a.fs.Remove(header.Name); err != nil { return fmt.Errorf(\"unable to remove existing file %s: %w\", header.Name, err) } }",
-  "f, err := a.fs.OpenFile(header.Name, os.O_CREATE|os.O_EXCL|os.O_WRONLY, header.FileInfo().Mode())",
+  "f, err := a.fs.OpenFile(header.Name, os.O_CREATE|os.O_EXCL|os.O_WRONLY, header.FileInfo().Mode()&^os.ModeType)",
   "if err != nil { return fmt.Errorf(\"error creating file %s: %w\", header.Name, err) }",
   "defer f.Close()",
   "if _, err := io.CopyN(f, r, header.Size); err != nil { return fmt.Errorf(\"unable to write content for %s: %w\", header.Name, err) }",
@@ -803,6 +803,116 @@ theorem tie_stmtsLazyLoop : Generated.stmtsLazyLoop = (["if file.Header.Name == 
   "if err != nil { return nil, err }",
   "if installed && file.Header.Typeflag == tar.TypeReg { a.installedFiles[file.Header.Name] = pkg }",
   "files = append(files, file.Header)"] : List String) := by rfl
+
+/-! ## the mode FIELD of a header never decides anything (F07j)
+
+What an entry is says its typeflag.  The mode field of a legal tar header may also carry `S_IF*` file-type bits
+and set-id / sticky bits; `tar.Header.FileInfo().Mode()` decodes the type bits, so every place of the
+installation that asks `FileInfo()` / `Entry.Type()` instead of the typeflag would let the field decide. -/
+
+/-- the ownership tests of the two install loops, as they stand in the source: every assignment to
+`a.installedFiles[…]` on the installation path with the condition it is under (the extractor reports an
+assignment that is not directly under an `if`).  Lazy: the TYPEFLAG; streaming: `installed` inside
+`case tar.TypeReg` of `switch header.Typeflag`.  Model: `Conflict.ownerTest`. -/
+theorem tie_ownerTests : Generated.ownerTests =
+    [("lazilyInstallAPKFiles", "if installed && file.Header.Typeflag == tar.TypeReg { a.installedFiles[file.Header.Name] = pkg }"),
+     ("installAPKFiles case tar.TypeReg:", "if installed { a.installedFiles[header.Name] = pkg }")] := by rfl
+
+/-- tarfs: the node of a package entry gets the mode field masked to permission + set-id + sticky bits
+(repair F17j), so the kind of the node comes from the typeflag alone -/
+theorem tie_stmtsEntryMode : Generated.stmtsEntryMode =
+    (["hdr := *h", "hdr.Mode &= 0o7777", "return hdr.FileInfo().Mode()"] : List String) := by rfl
+
+/-- streaming backends: the mode `writeOneFile` creates the file with has no `fs.ModeType` bit (repair F07j) -/
+theorem tie_streamCreateMode : Generated.streamCreateMode = "header.FileInfo().Mode() &^ os.ModeType" := by rfl
+
+/-- the model's ownership test does not look at the mode field -/
+theorem ownerTest_mode_field (b : Bool) (e : Entry) (m : Nat) : ownerTest b (e.withMode m) = ownerTest b e := rfl
+
+/-- the lazy path of the model records an owner exactly under `ownerTest`: a header that `lazyFile` wrote
+(`installed = true` and a change of the tree) enters `installedFiles` iff its TYPEFLAG is regular -/
+theorem lazyFile_inst_ownerTest (c : Cfg) (pkgs : List Pkg) (i : Nat) (e : Entry) (st st2 : St) (app : Bool)
+    (h : lazyFile c pkgs i e st = .ok (st2, app)) :
+    st2.inst = st.inst ∨ (ownerTest true e = true ∧ st2.inst = (e.name, i) :: st.inst) := by
+  unfold lazyFile at h
+  dsimp only at h
+  by_cases hk : e.kind = .reg
+  · have hot : ownerTest true e = true := by simp [ownerTest, hk]
+    simp only [hk, if_true] at h
+    repeat' (split at h)
+    all_goals first
+      | (cases h; done)
+      | (cases h; first | exact Or.inl rfl | exact Or.inr ⟨hot, rfl⟩)
+  · simp only [hk, if_false] at h
+    repeat' (split at h)
+    all_goals first
+      | (cases h; done)
+      | (cases h; exact Or.inl rfl)
+
+/-- an ownership test through `FileInfo()` (`file.Type().IsRegular()`) is a DIFFERENT test: a regular-file entry
+(typeflag '0') whose mode field carries c_ISDIR is not "regular" for it -/
+theorem fileInfoRegular_differs :
+    ∃ e : Entry, e.kind = .reg ∧ ownerTest true e = true ∧ fileInfoRegular e = false ∧
+      fileInfoRegular (e.withMode (e.mode % 512)) = true :=
+  ⟨{ name := "etc/x".toList, kind := .reg, mode := 0o40644 }, by decide⟩
+
+/-- **mode-field independence, one header**: on every backend, Impl and Spec, the step taken for a header
+depends on its mode field only through the nine permission bits — type bits (agreeing with the typeflag or
+not) and set-id / sticky bits change neither the tree, nor `installedFiles`, nor the decision, the flags,
+the outcome, nor whether the header is appended to the package's `files` -/
+theorem stepEntry_mode_field (c : Cfg) (pkgs : List Pkg) (i : Nat) (e : Entry) (m : Nat) (st : St)
+    (h : m % 512 = e.mode % 512) :
+    stepEntry c pkgs i (e.withMode m) st = stepEntry c pkgs i e st := by
+  have h1 : (e.withMode m).name = e.name := rfl
+  have h2 : (e.withMode m).kind = e.kind := rfl
+  have h3 : (e.withMode m).sum = e.sum := rfl
+  have h4 : (e.withMode m).target = e.target := rfl
+  have h5 : (e.withMode m).size = e.size := rfl
+  have hp : permOf (e.withMode m) = permOf e := by simp [permOf, Entry.withMode, h]
+  have hf : fileNode i (e.withMode m) = fileNode i e := by simp only [fileNode, hp, h3, h5]
+  have ha : aliasFlag st.tree (e.withMode m) = aliasFlag st.tree e := by simp only [aliasFlag, h1]
+  have hs : statThroughFlag st.tree (e.withMode m) = statThroughFlag st.tree e := by simp only [statThroughFlag, h1]
+  have hl : lazyFile c pkgs i (e.withMode m) st = lazyFile c pkgs i e st := by
+    simp only [lazyFile, hp, hf, h1, h2, h3, h4]
+  have hr : streamReg c pkgs i (e.withMode m) st = streamReg c pkgs i e st := by
+    simp only [streamReg, hf, h1, h3]
+  have hk : streamLink c i (e.withMode m) st = streamLink c i e st := by
+    simp only [streamLink, h1, h3, h4]
+  simp only [stepEntry, hl, hr, hk, ha, hs, hp, h1, h2]
+
+/-- the header with its mode field reduced to the nine permission bits -/
+def normE (e : Entry) : Entry := e.withMode (e.mode % 512)
+
+def normFiles : Except (Outcome × List Flag) (St × List Entry) → Except (Outcome × List Flag) (St × List Entry)
+  | .ok (s, r) => .ok (s, r.map normE)
+  | .error o => .error o
+
+theorem stepEntry_normE (c : Cfg) (pkgs : List Pkg) (i : Nat) (e : Entry) (st : St) :
+    stepEntry c pkgs i (normE e) st = stepEntry c pkgs i e st :=
+  stepEntry_mode_field c pkgs i e (e.mode % 512) st (Nat.mod_mod _ _)
+
+/-- **mode-field independence, one package**: the data section with every mode field reduced to its
+permission bits is installed exactly like the original one — same outcome, same tree, same
+`installedFiles`, same flags and log, and the same headers in `files` (up to the reduction) -/
+theorem installPkg_mode_field (c : Cfg) (pkgs : List Pkg) (i : Nat) (es : List Entry) :
+    ∀ (st : St) (files : List Entry),
+      installPkg c pkgs i (es.map normE) st (files.map normE) = normFiles (installPkg c pkgs i es st files) := by
+  induction es with
+  | nil => intro st files; simp [installPkg, normFiles]
+  | cons e rest ih =>
+    intro st files
+    simp only [List.map_cons, installPkg, stepEntry_normE]
+    cases hstep : stepEntry c pkgs i e st with
+    | error o => simp [normFiles]
+    | ok r =>
+      obtain ⟨st2, app⟩ := r
+      cases app
+      · simpa using ih st2 files
+      · have := ih st2 (files ++ [e])
+        simpa using this
+
+example : normE { name := "etc/x".toList, kind := .reg, mode := 0o44755 } =
+    { name := "etc/x".toList, kind := .reg, mode := 0o755 } := by decide
 
 theorem tie_stmtsPrune : Generated.stmtsPrune = (["owner, ok := a.installedFiles[hdr.Name]",
   "if !ok { return false }",
